@@ -34,6 +34,7 @@ from .common import (
     MAGIC_RBRACKET_CHAR,
     MAGIC_RE_PATTERN,
     MAX_MAGICS,
+    NAMED_ARG_RE,
     URL_STARTS,
     add_newline_to_expansion,
     is_positional_name,
@@ -1666,10 +1667,7 @@ class Wtp:
                     num = 1
                     for arg in map(str, args[1:]):
                         k: Union[str, int]
-                        m2 = re.match(
-                            r"""(?s)^\s*([^][&<>="]+?)\s*=\s*(.*?)\s*$""",
-                            arg,
-                        )
+                        m2 = NAMED_ARG_RE.match(arg)
                         if m2:
                             # Note: Whitespace is stripped by the regexp
                             # around named parameter names and values per
